@@ -9,7 +9,7 @@ PROP = dict(
     claim="for K in {1,2,4} (three builds) and six alphabets (complex, real, mixed, zero-padded/truncated fft(x, n) with inputs of different lengths, one whose histories contain rejected requests - odd irfft lengths, a plan applied to another length - and two with long-lived plan objects: FftPlan/FftPlanR/IfftPlan, and IfftPlanR/CztPlan) every request "
           "sequence of length <= 6 (thorough 8; 5/6 for the 10-letter alphabets) is executed in a fresh thread and its last request is checked for "
           "(1) bit-identical result versus a brand-new thread and (2) the LRU discipline of both caches read through the DSPLIB_VERIF accessor; "
-          "plus a deterministic 10^4-request sequence over 40 lengths with held plans, and an ASan pass (use after eviction). Exhaustive "
+          "a key that newly appears in a cache must be one the request itself creates when it is the first request of a fresh process (measured on the implementation in forked children), and other threads' requests must leave the calling thread's caches untouched (thread.isolation); plus a deterministic 10^4-request sequence over 40 lengths with held plans, and an ASan pass (use after eviction). Exhaustive "
           "within the depth; longer histories are covered only by the long sequence.",
     note="trusts the DSPLIB_VERIF key accessors (read-only, add-only hook); the LRU oracle takes the weak reading: at most K keys, "
          "requested plan most recent, untouched keys keep their recency order, only least-recently-used keys disappear (evicting more than "
